@@ -187,7 +187,7 @@ nullpointer(struct expr *e)
 		return false;
 	if (e->type->kind == TYPENULLPTR)
 		return true;
-	if (!(e->type->prop & PROPINT) && (e->type->kind != TYPEPOINTER || e->type->base != &typevoid))
+	if (!(e->type->prop & PROPINT) && (e->type->kind != TYPEPOINTER || e->type->base != &typevoid || e->type->qual != QUALNONE))
 		return false;
 	return e->u.constant.u == 0;
 }
